@@ -30,6 +30,8 @@ def run(report, index, tier):
         'the token regexes), and the semicolon-dropping contexts.')
     rule_skeleton(report, index, 'R02.1')
     guard_tokens(report, index, M, 'R02.6')
+    from .arrays import array_rule
+    array_rule(report, index, M, 'R02.1e', bound=8)
     E = FusionEngine(index)
     for drop in (False, True):
         handlers = E.table('minify', drop_semi=drop)
